@@ -44,10 +44,12 @@ def dn_st(draw, tc=None, m=None, n=None, maxdim=4):
     tc = tc or draw(st.sampled_from("dz"))
     m = draw(st.integers(0, maxdim)) if m is None else m
     n = draw(st.integers(0, maxdim)) if n is None else n
-    return dict(tc=tc, m=m, n=n, v=[draw(val_st(tc)) for _ in range(m * n)])
+    return dict(tc=tc, m=m, n=n, v=[draw(val_st("d" if tc == "i" else tc)) for _ in range(m * n)])
 
 
 def mk_dn(s):
+    if s["tc"] == "i":
+        return matrix([int(2 * v) for v in s["v"]], (s["m"], s["n"]), "i")
     return matrix([dec(s["tc"], v) for v in s["v"]], (s["m"], s["n"]), s["tc"])
 
 
@@ -171,7 +173,7 @@ def both(f_sparse, f_dense, what, approx=False, expect_type=None, same_class=Tru
 @st.composite
 def case_strategy(draw):
     op = draw(st.sampled_from(["ctor", "ctor", "sparsefn", "blockgrid", "spdiag", "get1", "get2", "get2", "set1", "set2", "set2", "bin", "bin",
-                               "scal", "unary", "inplace", "setV", "resize", "blas", "blas"]))
+                               "scal", "unary", "inplace", "setV", "resize", "blas", "blas", "foreign"]))
     c = dict(op=op)
     if op == "ctor":
         tc = draw(st.sampled_from("ddz"))
@@ -201,6 +203,10 @@ def case_strategy(draw):
     elif op == "spdiag":
         c.update(items=[draw(st.one_of(dn_st(m=k_, n=k_), sp_st(m=k_, n=k_))) for k_ in draw(st.lists(st.integers(0, 3), min_size=1, max_size=3))],
                  vec=draw(dn_st(n=1)), usevec=draw(st.booleans()))
+        if c["usevec"] and draw(st.booleans()):
+            # "x is a dense or sparse matrix with a single row or column": sparse vectors, rows as well as columns
+            k_ = draw(st.integers(1, 4))
+            c["vec"] = draw(sp_st(m=1, n=k_)) if draw(st.booleans()) else draw(st.one_of(sp_st(m=k_, n=1), dn_st(m=1, n=k_)))
     elif op in ("get1", "set1"):
         A = draw(sp_st())
         c.update(A=A, key=draw(key_st(A["m"] * A["n"])))
@@ -245,6 +251,11 @@ def case_strategy(draw):
         else:
             B = dict(sp=draw(sp_st())) if draw(st.booleans()) else dict(dn=draw(dn_st()))
         c.update(A=A, B=B, bop=bop, swap=draw(st.booleans()))
+    if op == "foreign":
+        c.update(A=draw(st.one_of(sp_st(), dn_st(), dn_st(tc="i"))),
+                 bop=draw(st.sampled_from(["add", "sub", "mul", "truediv", "mod", "pow", "iadd", "isub", "imul", "itruediv", "imod"])),
+                 obj=draw(st.sampled_from(["none", "str", "object", "list", "tuple", "dict", "inst", "refl", "bigint", "hugeint", "bytes"])),
+                 swap=draw(st.booleans()))
     if op == "scal":
         tcn = draw(st.sampled_from("ddz"))
         c.update(A=draw(sp_st()), f=draw(st.sampled_from(["mul", "rmul", "div", "add", "radd", "sub", "rsub", "imul", "idiv"])),
@@ -495,6 +506,14 @@ def oracle(case, stats=None):
                 stats.evaluated(case, False, labels + ["unspecified:spdiag_of_empty_vector"])
             return
         if case["usevec"]:
+            v = mk_sp(case["vec"]) if "I" in case["vec"] else mk_dn(case["vec"])
+            labels.append("spdiag:%s_%s" % ("sparse" if isinstance(v, spmatrix) else "dense", "row" if v.size[0] == 1 else "col"))
+            vd = matrix(v)
+            vd = matrix(list(vd), (len(vd), 1), vd.typecode)
+            out, R = both(lambda: spdiag(v), lambda: matrix([[vd[i] if i == j else 0.0 for i in range(len(vd))] for j in range(len(vd))],
+                                                            (len(vd), len(vd)), vd.typecode) if len(vd) else matrix(0.0, (0, 0), vd.typecode),
+                          "spdiag(vector)", expect_type="sparse")
+        elif False:
             v = mk_dn(case["vec"])
             out, R = both(lambda: spdiag(v), lambda: matrix([[v[i] if i == j else 0.0 for i in range(len(v))] for j in range(len(v))],
                                                             (len(v), len(v)), v.typecode) if len(v) else matrix(0.0, (0, 0), v.typecode),
@@ -754,16 +773,83 @@ def oracle(case, stats=None):
             return D
         out, R = both(fs, fd, "size change to %r" % (size,))
         check_ccs(A, "size change")
+    elif op == "foreign":
+        out = foreign_case(case, labels)
     elif op == "blas":
         blas_case(case, labels)
     else:
         raise AssertionError(op)
     A_ = case.get("A")
-    nontrivial = out == "ok" and ((A_ is not None and len(A_["I"]) > 0 and (
+    nontrivial = out == "ok" and ((A_ is not None and len(A_.get("I", ())) > 0 and (
         (op in ("get1", "get2", "set1", "set2") and (case["key"][0] in ("list", "imat") or (op.endswith("2") and case["key2"][0] in ("list", "imat"))))
         or op in ("bin", "inplace") or (op in ("set1", "set2") and "sp" in case["rhs"]))) or op == "blas")
     if stats is not None:
         stats.evaluated(case, nontrivial, labels + ["outcome:" + out])
+
+
+class _Inst:
+    """an ordinary Python object with attributes, no arithmetic"""
+    def __init__(self):
+        self.a, self.b, self.c, self.d = 1.5, [1, 2, 3], {"k": 2}, "text"
+
+
+class _Refl:
+    """an object that implements the reflected and direct operators itself"""
+    def _r(self, other):
+        return ("handled", type(other).__name__)
+    __add__ = __radd__ = __sub__ = __rsub__ = __mul__ = __rmul__ = __truediv__ = __rtruediv__ = __mod__ = __rmod__ = _r
+    __pow__ = __rpow__ = _r
+
+
+def foreign_case(case, labels):
+    """A matrix combined with an object that is neither a matrix nor a number of a convertible size: the operator must
+    hand over to the other operand (NotImplemented -> TypeError, or the other operand's own method) or raise; it must
+    not touch memory, leave an exception pending, or modify the matrix."""
+    import operator as O
+    A = mk_sp(case["A"]) if "I" in case["A"] else mk_dn(case["A"])
+    image = (A.size, A.typecode, list(matrix(A)))
+    kind = case["obj"]
+    obj = {"none": None, "str": "s", "object": object(), "list": [1, 2], "tuple": (1.0,), "dict": {1: 2}, "inst": _Inst(),
+           "refl": _Refl(), "bigint": 2 ** 70, "hugeint": 2 ** 2000, "bytes": b"ab"}[kind]
+    f = getattr(O, case["bop"])
+    labels.append("foreign:" + kind)
+    outcome = "refused"
+    for rep in range(3):
+        accepted = True
+        try:
+            r = f(obj, A) if case["swap"] else f(A, obj)
+        except EXC:
+            r = None
+            accepted = False
+        except SystemError as e:
+            raise Violation("%s with a %s operand: SystemError %s" % (case["bop"], kind, e))
+        # an exception left pending by the operator surfaces as SystemError in the next call of a C function
+        try:
+            _Inst()
+        except SystemError as e:
+            raise Violation("%s of a %s '%s' matrix and a %s operand (%s) returned a result and left an exception pending: %s" % (
+                case["bop"], type(A).__name__, A.typecode, kind, "reflected" if case["swap"] else "direct", e.__cause__ or e))
+        if accepted:
+            if kind == "refl":
+                if not (isinstance(r, tuple) and r and r[0] == "handled"):
+                    raise Violation("%s with an operand that implements the operator itself did not defer to it: got %r" % (case["bop"], type(r).__name__))
+                outcome = "ok"
+            elif kind == "bigint" and (A.typecode != "i" or case["bop"] in ("truediv", "pow")):
+                outcome = "ok"        # 2**70 is representable as a double (division and powers of 'i' matrices are 'd')
+            elif kind in ("bigint", "hugeint") and case["bop"] in ("pow",) and case["swap"]:
+                outcome = "ok"
+            elif kind in ("str", "bytes", "list", "tuple") and case["swap"] and case["bop"] in ("mod", "imod", "mul", "imul", "add", "iadd"):
+                outcome = "ok"        # the sequence / string type's own operator decides ("%s" % A, ...)
+            else:
+                raise Violation("%s of a %s matrix and a %s operand (%s) was accepted and returned %s" % (
+                    case["bop"], type(A).__name__, kind, "reflected" if case["swap"] else "direct", type(r).__name__))
+        if not case["bop"].startswith("i") or r is None:
+            if (A.size, A.typecode, list(matrix(A))) != image:
+                raise Violation("%s with a %s operand modified the matrix" % (case["bop"], kind))
+    check_ccs(A, "operand after " + case["bop"])
+    if type(NotImplemented).__name__ != "NotImplementedType" or NotImplemented is None:
+        raise Violation("NotImplemented singleton damaged")
+    return outcome
 
 
 # ------------------------------------------------------------------ mutation histories
